@@ -655,6 +655,7 @@ fn cmd_inv(args: &[String]) {
             let chars = cmap_chars(&face, 600);
             let t = face.tables();
             let has_pos = t.gpos.is_some() || t.kern.is_some() || t.kerx.is_some() || t.trak.is_some();
+            let has_trak = t.trak.is_some();
             let axes: Vec<(String, f32, f32)> = t
                 .fvar
                 .map(|f| f.axes.into_iter().map(|a| (a.tag.to_string(), a.min_value, a.max_value)).collect())
@@ -668,7 +669,14 @@ fn cmd_inv(args: &[String]) {
                     }
                     apply_vars(&mut face, &vars);
                 }
-                let base = gen_inv_req(&mut rng, &chars);
+                let mut base = gen_inv_req(&mut rng, &chars);
+                // fonts with an AAT tracking table: a point size makes tracking live (horizontal data only is the rule:
+                // a vertical run then gets no tracking, and never an advance across its axis)
+                if has_trak {
+                    let pt = [1u32, 9, 12, 24][(k % 4) as usize];
+                    face.set_points_per_em(Some(pt as f32));
+                    base.ptem = Some(pt);
+                }
                 for d in DIRS {
                     let mut req = base.clone();
                     req.dir = d;
